@@ -513,6 +513,69 @@ fn dispatch(rng: &mut Rng, rep: &mut Report, kind: u32, code: Option<u64>) {
     }
 }
 
+/// Scale invariance. The frustum |x|,|y|,|z| ≤ w is a cone: scaling all
+/// four coordinates of every vertex by 2^k (exact in f32 as long as nothing
+/// leaves the normal range) must scale the output positions by 2^k
+/// bit-for-bit and leave the attributes bit-identical. The property bounds
+/// coordinates only relative to each other, so any absolute scale is in scope.
+fn scale_case<A: Attr>(rng: &mut Rng, rep: &mut Report) {
+    let kind = rng.pick(&[1u32, 2, 2, 3]);
+    let p = gen(rng, kind, None);
+    let a = gen_attrs(rng, A::N);
+    let t = InTri { p, a };
+    let maxc = t.p.iter().flatten().fold(0.0f32, |m, x| m.max(x.abs()));
+    let minc = t.p.iter().flatten().filter(|x| **x != 0.0).fold(f32::INFINITY, |m, x| m.min(x.abs()));
+    if !(maxc > 0.0) || !minc.is_finite() {
+        return;
+    }
+    // keep every non-zero input coordinate, and every difference the clipper
+    // forms, well inside the normal range: 2^-100 ≤ |c·2^k| ≤ 2^100
+    let (emax, emin) = (maxc.log2().ceil() as i32, minc.log2().floor() as i32);
+    let (klo, khi) = (-100 - emin + 26, 100 - emax - 4);
+    if klo >= khi {
+        return;
+    }
+    let k = match rng.below(4) {
+        0 => klo,
+        1 => khi,
+        _ => rng.int(klo as i64, khi as i64) as i32,
+    };
+    let f = 2.0f32.powi(k);
+    let ts = InTri { p: t.p.map(|v| v.map(|x| x * f)), a: t.a };
+    let mut h = Hasher::new();
+    for v in &ts.p {
+        h.f32s(v);
+    }
+    h.bytes(A::NAME.as_bytes());
+    let (r0, r1) = (clip_one::<A>(&t), clip_one::<A>(&ts));
+    let (Ok(o0), Ok(o1)) = (r0, r1) else {
+        rep.case(h.get(), true);
+        rep.violation("clip.panic", "view_frustum::clip panicked (scaled input)".into(), case_json::<A>(&ts).set("scale", format!("2^{k}")));
+        return;
+    };
+    rep.case(h.get(), !o0.is_empty());
+    rep.count("scale.cases");
+    rep.count(if k < -60 { "scale.below_2^-60" } else if k > 60 { "scale.above_2^60" } else { "scale.moderate" });
+    if !o0.is_empty() && o0.len() != 1 {
+        rep.count("scale.cases_with_real_clipping");
+    }
+    let same = o0.len() == o1.len()
+        && o0.iter().zip(&o1).all(|(x, y)| {
+            (0..3).all(|i| {
+                let (px, py) = (x.0[i].pos.0, y.0[i].pos.0);
+                (0..4).all(|c| (px[c] * f).to_bits() == py[c].to_bits() || (px[c] == 0.0 && py[c] == 0.0))
+                    && x.0[i].attrib.comps().map(f32::to_bits) == y.0[i].attrib.comps().map(f32::to_bits)
+            })
+        });
+    if !same {
+        rep.violation(
+            "clip.scale_dependence",
+            format!("clip(2^{k}·T) is not 2^{k}·clip(T): {} output triangle(s) at unit scale, {} at scale 2^{k}", o0.len(), o1.len()),
+            case_json::<A>(&ts).set("scale", format!("2^{k}")).set("unscaled_v0", f32v(&t.p[0])).set("unscaled_v1", f32v(&t.p[1])).set("unscaled_v2", f32v(&t.p[2])),
+        );
+    }
+}
+
 /// (8) batch independence: clip(all) == concat(clip([t])) bit-for-bit.
 fn batch_case<A: Attr>(rng: &mut Rng, rep: &mut Report) {
     let n = rng.int(2, 8) as usize;
@@ -617,6 +680,14 @@ pub fn run(cfg: &Cfg, rep: &mut Report) {
         _ => batch_case::<(Vec2, f32)>(rng, rep),
     });
 
+    rep.run_stream(cfg, 6, "scale_invariance", cfg.n(200_000, 20_000_000), |rng, _, rep| match rng.below(3) {
+        0 => scale_case::<f32>(rng, rep),
+        1 => scale_case::<Vec3>(rng, rep),
+        _ => scale_case::<(Vec2, f32)>(rng, rep),
+    });
+    rep.floor("scale.cases_with_real_clipping", 30_000);
+    rep.floor("scale.below_2^-60", 10_000);
+    rep.floor("scale.above_2^60", 5_000);
     rep.floor("uv_oracle.applied", 100_000);
     rep.floor("out_tris.3", 2_000);
     rep.floor("out_tris.4", 500);
